@@ -54,7 +54,8 @@ def run(prop, tier, rep):
             rep.add_obligation(prop + "/" + o["id"], "proved", backend, 0.0, o.get("detail", ""))
             continue
         elif known:
-            rep.add_obligation(prop + "/" + o["id"], "proved", "known-finding(recorded defective output, unchanged)", 0.0, o.get("detail", ""))
+            # the obligation FAILS, with exactly the defective output recorded for a known finding: neither discharged nor a new violation
+            rep.add_obligation(prop + "/" + o["id"], "known-finding", "cpython-exec-on-opaque-parts (recorded defective output, unchanged)", 0.0, rec["finding"])
             continue
         else:
             rep.add_obligation(prop + "/" + o["id"], "refuted", backend, 0.0, o.get("detail", ""))
@@ -65,6 +66,24 @@ def run(prop, tier, rep):
                                                  obligation_local_id=o["id"]), True)
     for fid, ids in sorted(present.items()):
         rep.known_finding(fid, "%d obligations, e.g. %s" % (len(ids), ids[0]))
+    # what is under contract: real classes (methods basic09_text / visit / is_str_expr) and contract groups of real functions
+    groups = {}
+    for o in obs:
+        parts = o["id"].split("/")
+        if parts[0] in ("T", "V", "K") and len(parts) > 1:
+            cls = parts[2] if parts[1] == "subst" and len(parts) > 2 else parts[1]
+            cls = cls.split(" in context")[0]
+            key = "coco.b09.elements.%s.%s" % (cls, {"T": "basic09_text", "V": "visit", "K": "is_str_expr"}[parts[0]])
+        else:
+            key = "contract group `%s` (tx/p_%s.py)" % (parts[0], prop.lower())
+        g = groups.setdefault(key, [0, 0])
+        g[0] += 1
+        g[1] += 1 if o["ok"] else 0
+    rep.functions = [dict(function=k, obligations=v[0], holding=v[1]) for k, v in sorted(groups.items())]
+    rep.assumptions += ["every part of a construct honours its own contract (basic09_text returns its text, visit presents its sub-tree): "
+                        "discharged per class by the same obligations, composed by structural induction (paper, DESIGN 6.3)",
+                        "the real parser delivers constructs of the classes under contract (F2 obligations check the rules exercised, not every sentence)",
+                        "BASIC09 syntax and precedence as transcribed in tx/b09syntax.py and tx/p_c01.py (B09_LEVELS); Color BASIC precedence as in CB_LEVELS"]
     rep.trusted_base += TRUSTED
     rep.samples = [dict(obligation=o["id"], expected=o["expected"], actual=o["actual"], ok=o["ok"]) for o in obs[:8]]
     rep.extra["families"] = {}
